@@ -139,7 +139,54 @@ def handleNuGen (args : List String) : Option String :=
     pure (hexOfBytes (String.ofList (NuGen.script root)).toUTF8.toList)
   (d.run args).map (·.1)
 
+def decZArg : Dec ZshGen.ZArg := do
+  let id ← strB
+  let flags ← tok      -- positional, takes, star, required, last, multi
+  let b := fun (i : Nat) => (flags.toList.getD i '0') == '1'
+  let short1 ← optStrB
+  let shortAliases ← listOf strB
+  let long1 ← optStrB
+  let longAliases ← listOf strB
+  let shortsAll ← listOf strB
+  let longsAll ← listOf strB
+  let help ← optStrB
+  let valueName ← optStrB
+  let minVals ← nat
+  let conflicts ← listOf strB
+  let pvt ← tok
+  let pvs ← if pvt == "~" then pure none else do
+    let n ← ofOpt pvt.toNat?
+    let l ← many (do let nm ← strB; let h ← optStrB; let hid ← tok; pure (nm, h, hid == "1")) n
+    pure (some l)
+  let ht ← tok
+  let hint ← ofOpt (match ht with
+    | "0" => some ZshGen.Hint.unknown | "1" => some .other | "2" => some .files | "3" => some .dir | "4" => some .exe
+    | "5" => some .cmdName | "6" => some .cmdString | "7" => some .cmdArgs | "8" => some .user | "9" => some .host
+    | "10" => some .url | "11" => some .email | "12" => some .unsupported | _ => none)
+  let terminator ← optStrB
+  pure { id, positional := b 0, takes := b 1, star := b 2, required := b 3, last := b 4, multi := b 5, short1, shortAliases, long1, longAliases,
+         shortsAll, longsAll, help, valueName, minVals, conflicts, pvs, hint, terminator }
+
+def decZNode : Nat → Dec ZshGen.ZNode
+  | 0 => failure
+  | fuel+1 => do
+    let name ← strB
+    let bin ← strB
+    let about ← optStrB
+    let aliases ← listOf strB
+    let args ← listOf decZArg
+    let subs ← listOf (decZNode fuel)
+    pure (.mk name bin about aliases args subs)
+
+/-- `zshgen TREE` → hex of the whole zsh script -/
+def handleZshGen (args : List String) : Option String :=
+  let d : Dec String := do
+    let root ← decZNode 8
+    pure (hexOfBytes (String.ofList (ZshGen.script 8 root)).toUTF8.toList)
+  (d.run args).map (·.1)
+
 def handleL7 (cmd : String) (args : List String) : Option String :=
+  if cmd == "zshgen" then some ((handleZshGen args).getD "bad-op") else
   if cmd == "nugen" then some ((handleNuGen args).getD "bad-op") else
   if cmd == "fishgen" then some ((handleFishGen args).getD "bad-op") else
   if cmd == "casegen" then some ((handleCaseGen args).getD "bad-op") else
